@@ -4,7 +4,8 @@ from lib.verif import *
 THEOREMS = [
     "C20_chan_ann_authentic", "C20_update_authentic", "C20_node_authentic",
     "C20_unchanged_not_relayed", "C20_premature_replay_revalidates",
-    "C20_nodes_have_channels",
+    "C20_nodes_have_channels", "C20_node_ann_needs_channel",
+    "C20_node_ann_channelless_window_refuted", "C20_zombie_resurrection_authentic",
 ]
 MODULE = "LV.Gossip.Props"
 TARGETS = ["theories/Gossip/Props.vo", "theories/Gossip/Exec.vo", "theories/Gossip/Examples.vo"]
@@ -19,6 +20,10 @@ ERR = {"own": "EOwn", "rejected": "ERejected", "chain": "EChain", "alias": "EAli
        "badout": "EBadOut", "spent": "ESpent", "zerots": "EZeroTs", "skew": "ESkew",
        "zombie_key": "EZombieKey", "zombie_sig": "EZombieSig", "cu_invalid": "ECuInvalid",
        "na_invalid": "ENaInvalid", "outdated": "EOutdated", "ignored": "EIgnored"}
+
+
+REMOVALS = ["reorg", "delete", "delete_zombie", "delete_zombie_strict", "spend"]
+SWEEPS = ["none", "block_empty", "block_closing_other", "prune_nodes", "restart"]
 
 
 def n(x):
@@ -54,12 +59,27 @@ def pol_term(p):
     return "(Some (mkPol %s))" % " ".join(n(x) for x in p)
 
 
+def op_term(m):
+    o = m["op"]
+    if o == "connect":
+        return "(OConnect %s)" % clist([n(x) for x in m["spent"]])
+    if o == "disconnect":
+        return "(ODisconnect %s %s)" % (n(m["lo"]), n(m["hi"]))
+    if o == "delete":
+        return "(ODelete %s %s %s)" % (n(m["scid"]), cbool(m["zombie"]), cbool(m["strict"]))
+    return "OSweep"
+
+
+DUMMY_MSG = "(MNA (mkNA 0%N 0%N 0%N 0%N false))"
+
+
 def snap_term(g):
     es = ["(%s, mkEdge %s %s %s %s %s %s %s %s)" % (
         n(c[0]), n(c[1]), n(c[2]), n(c[3]), n(c[4]), n(c[5]), cbool(c[6]),
         pol_term(c[7]), pol_term(c[8])) for c in g["chans"]]
     ns = ["(%s, mkNode %s %s)" % (n(x[0]), n(x[1]), n(x[2])) for x in g["nodes"]]
-    return "(mkSnap %s %s %s %s)" % (clist(es), clist(ns), clist([n(z) for z in g["zombies"]]),
+    zs = ["(%s, (%s, %s))" % (n(z[0]), n(z[1]), n(z[2])) for z in g["zombies"]]
+    return "(mkSnap %s %s %s %s)" % (clist(es), clist(ns), clist(zs),
                                      clist([n(z) for z in g["closed"]]))
 
 
@@ -90,14 +110,16 @@ def case_term(case):
             cids[h] = len(cids) + 1
         return cids[h]
 
-    ver, fund, script = set(), {}, {}
+    ver, script = set(), {}
     steps = []
     for s in case["steps"]:
         m, orc = s["m"], s["orc"]
         for t in orc.get("ver") or []:
             ver.add(tuple(t))
+        fund = "FRpcErr"
         if m["t"] == "ca":
-            fund[m["scid"]] = fund_term(orc["fund"])
+            # the chain moves during a case: the funding answer is per step
+            fund = fund_term(orc["fund"])
             script[(m["b1"], m["b2"], bool(m["tap"]))] = orc["script"]
         resolved = ["(%s, %s)" % (n(r[0]), verdict_term(r[1])) for r in (s["resolved"] or [])]
         bans = ["(%s, %s)" % (n(p), n(b)) for p, b in zip(case["peers"], s["ban"])]
@@ -107,16 +129,18 @@ def case_term(case):
             if p not in seen:
                 seen.add(p)
                 bans2.append(b)
-        steps.append("mkStep %s %s %s %s %s %s %s %s %s" % (
-            cbool(s.get("restart")), n(s["now"]), n(s["peer"]), n(cid(m["cid"])), msg_term(m), verdict_term(s["res"]),
+        isop = m["t"] == "op"
+        steps.append("mkStep %s %s %s %s %s %s %s %s %s %s %s %s" % (
+            cbool(s.get("restart")), n(s["now"]), n(s["peer"]), n(cid(m["cid"])),
+            "(Some %s)" % op_term(m) if isop else "None", fund, n(s.get("best", case["best"])),
+            DUMMY_MSG if isop else msg_term(m), verdict_term(s["res"]),
             clist(resolved), snap_term(s["G"]), clist(bans2)))
     bc = sorted((cid(h), c) for h, c in case["bcast"].items())
     cfg = "(mkCfg %s 1%%N %s false %s %s %s)" % (n(case["own"]), n(case["best"]), n(case["rebroadcast"]),
                                              n(case["prune"]), n(case["burst"]))
-    return "mkCase %s %s\n %s\n %s\n %s\n %s\n %s" % (
-        cfg, n(case["alias_start"]),
+    return "mkCase %s %s %s\n %s\n %s\n %s\n %s" % (
+        cfg, n(case["alias_start"]), cbool(case.get("backend", "bbolt") != "sqlite"),
         clist(["(%s, %s, %s)" % tuple(n(x) for x in t) for t in sorted(ver)]),
-        clist(["(%s, %s)" % (n(k), v) for k, v in sorted(fund.items())]),
         clist(["(%s, %s, %s, %s)" % (n(k[0]), n(k[1]), cbool(k[2]),
                                       "None" if v is None else "(Some %s)" % n(v))
                for k, v in sorted(script.items())]),
@@ -129,34 +153,86 @@ def upd_policy(u):
             u["extra"], u["sig"]]
 
 
-def predicate(case):
+# signatures (matched against known_findings.json by Ctx.violation)
+SIG_ZOMBIE = "C20 zombie:resurrected-by-non-owner"
+SIG_ZOMBIE_OWNER = "C20 zombie:owner-update-rejected-as-badly-signed"
+# node_announcement applied to a node without a known channel ...
+SIG_NA_WINDOW = "C20 node-ann:channelless before-next-block"   # ... no block connected since it lost it
+SIG_NA_BLOCK = "C20 node-ann:channelless after-block"          # + backend: blocks connected, no sweep point
+SIG_NA_SWEPT = "C20 node-ann:channelless after-sweep"          # + backend: even after a sweep point
+
+
+def na_signature(inf, backend):
+    """Which of the channel-less node_announcement situations is this?  A sweep
+    point is an event after which NO store may still hold the node: restart,
+    PruneGraphNodes, a connected block that closed a known channel; on bbolt also
+    any connected block is one by the store's documented behaviour, but that
+    case is kept apart (after-block bbolt) because it is what a skipped sweep in
+    KVStore.PruneGraph looks like."""
+    if inf is None or inf["how"] == "spend" or inf["swept"] > 0 or inf["closing"] > 0:
+        return "%s %s" % (SIG_NA_SWEPT, backend)
+    if inf["blocks"] == 0:
+        return SIG_NA_WINDOW
+    return "%s %s" % (SIG_NA_BLOCK, backend)
+
+
+def predicate(case, obs=None):
     """Property predicate on the IMPLEMENTATION's trace alone (independent of
     the Coq model): every graph change is explained by an authentic, fresh
-    message per the harness' own re-verification; rejections leave the graph
-    unchanged; nothing reaches Broadcast more often than it changed the graph."""
+    message per the harness' own re-verification, or by a graph maintenance
+    event that may cause exactly that change (channels: block spend, re-org,
+    explicit deletion; nodes: a sweep of nodes that have no channel; zombie
+    index: deletion with zombie marking); a node announcement is applied only
+    to a node that has a known channel AT THAT MOMENT; a zombie entry
+    disappears only through an update signed by the REAL owner of its
+    direction (node keys tracked here from the channel as it was in the graph,
+    not read back from the zombie index); rejections leave the graph
+    unchanged; nothing reaches Broadcast more often than it changed the graph.
+    Returns a list of (signature, text).  obs: counters per signature."""
     fill_graphs(case)
+    if obs is None:
+        obs = {}
     fails = []
+
+    def fail(text, sig=None):
+        fails.append((sig or ("gossip predicate: " + text.split(": ", 1)[-1][:70]), text))
+
     ver = set()
     for s in case["steps"]:
         for t in s["orc"].get("ver") or []:
             ver.add(tuple(t))
     own = case["own"]
+    backend = case.get("backend", "bbolt")
     gp = {"chans": [], "nodes": [[own, 0, 0]], "zombies": [], "closed": []}
     pend = {}          # scid -> [update messages waiting for the channel]
     effect = {}        # content id -> number of graph changes it caused
+    real = {}          # scid -> (node1, node2) of the channel as last seen in the graph
+    orphan = {}        # node -> how it lost its last channel and what happened since
     for s in case["steps"]:
         i, m, orc, g = s["i"], s["m"], s["orc"], s["G"]
+        isop = m["t"] == "op"
+        op = m.get("op") if isop else None
         if s.get("restart"):
             pend = {}      # parked updates died with the old gossiper
         cp = {c[0]: c for c in gp["chans"]}
         cn = {c[0]: c for c in g["chans"]}
         np_ = {x[0]: x for x in gp["nodes"]}
         nn = {x[0]: x for x in g["nodes"]}
+        zp = {z[0]: z for z in gp["zombies"]}
+        zn = {z[0]: z for z in g["zombies"]}
+        for c in gp["chans"]:
+            real[c[0]] = (c[1], c[2])
         changed = False
         new_chan = None
+        # what happened to the orphans' environment in this step (before looking at the NA)
+        closes_known = op == "connect" and any(x in cp for x in m["spent"])
         for scid in cp:
             if scid not in cn:
-                fails.append("step %d: channel %d disappeared" % (i, scid))
+                ok = (op == "connect" and scid in m["spent"]) or \
+                     (op == "disconnect" and m["lo"] <= scid < m["hi"]) or \
+                     (op == "delete" and scid == m["scid"])
+                if not ok:
+                    fail("step %d: channel %d disappeared (%s)" % (i, scid, op or m["t"]))
         for scid, c in cn.items():
             if scid not in cp:
                 changed = True
@@ -168,19 +244,19 @@ def predicate(case):
                       (m["n1"], m["dg"], m["ns1"]) in ver and (m["n2"], m["dg"], m["ns2"]) in ver and
                       m["chain"] == 1 and own not in (m["n1"], m["n2"]))
                 if not ok:
-                    fails.append("step %d: channel %d entered the graph without four valid "
-                                 "signatures over the announcement" % (i, scid))
+                    fail("step %d: channel %d entered the graph without four valid "
+                         "signatures over the announcement" % (i, scid))
                 elif not (f.get("k") == "tx" and f.get("script") is not None and
                           f.get("script") == orc.get("script") and f.get("utxo") == 0 and
                           f.get("value") == c[5]):
-                    fails.append("step %d: channel %d entered the graph but its funding output "
-                                 "is %s (expected script %s)" % (i, scid, f, orc.get("script")))
+                    fail("step %d: channel %d entered the graph but its funding output "
+                         "is %s (expected script %s)" % (i, scid, f, orc.get("script")))
                 else:
                     effect[m["cid"]] = effect.get(m["cid"], 0) + 1
                 oldp = [None, None]
             else:
                 if c[:7] != cp[scid][:7]:
-                    fails.append("step %d: channel %d static fields changed" % (i, scid))
+                    fail("step %d: channel %d static fields changed" % (i, scid))
                 oldp = cp[scid][7:9]
             for d in (0, 1):
                 newp = c[7 + d]
@@ -198,8 +274,8 @@ def predicate(case):
                         hit = u
                 capm = c[5] * 1000
                 if hit is None:
-                    fails.append("step %d: policy %d/%d changed to %s, not the content of the "
-                                 "message(s) at hand" % (i, scid, d, newp))
+                    fail("step %d: policy %d/%d changed to %s, not the content of the "
+                         "message(s) at hand" % (i, scid, d, newp))
                 elif not ((c[1 + d], hit["dg"], hit["sig"]) in ver and hit["ts"] > 0 and
                           (oldp[d] is None or oldp[d][0] < hit["ts"]) and hit["chain"] == 1 and
                           (hit["mf"] & 1) and hit["max"] > 0 and hit["max"] >= hit["min"] and
@@ -213,50 +289,120 @@ def predicate(case):
                         why = "updated with inconsistent fields (max-htlc flag / max / min)"
                     else:
                         why = "updated by an update that is not authentic"
-                    fails.append("step %d: policy %d/%d %s: %s (old %s, cap %d)" %
-                                 (i, scid, d, why, hit, oldp[d], c[5]))
+                    fail("step %d: policy %d/%d %s: %s (old %s, cap %d)" %
+                         (i, scid, d, why, hit, oldp[d], c[5]))
                 else:
                     effect[hit["cid"]] = effect.get(hit["cid"], 0) + 1
+        # ---- zombie index ----
+        for scid, z in zn.items():
+            if scid in zp and zp[scid] == z:
+                continue
+            if scid in zp:
+                fail("step %d: zombie entry of %d rewritten %s -> %s" % (i, scid, zp[scid], z))
+            elif op == "delete" and m["scid"] == scid and m["zombie"]:
+                pass
+            elif m["t"] == "ca" and m["scid"] == scid and z[1:] == [0, 0]:
+                pass        # failed funding validation: marked, nobody may resurrect it
+            else:
+                fail("step %d: zombie entry %s appeared (%s)" % (i, z, op or m["t"]))
+        for scid, z in zp.items():
+            if scid in zn:
+                continue
+            changed = True
+            d = (m.get("cf", 0) & 1) if m["t"] == "cu" else None
+            owner = real.get(scid, (None, None))[d] if d is not None else None
+            if not (m["t"] == "cu" and m["scid"] == scid and owner is not None and
+                    (owner, m["dg"], m["sig"]) in ver and m["ts"] > 0 and m["chain"] == 1):
+                signers = sorted(t[0] for t in ver if m["t"] == "cu" and t[1:] == (m["dg"], m["sig"]))
+                fail("step %d: zombie channel %d (stored keys %s) was resurrected by a %s that is "
+                     "not a channel_update signed by the owner of its direction (direction %s, "
+                     "real owner key %s of channel keys %s, signature verifies under key(s) %s)" %
+                     (i, scid, z[1:], m["t"], d, owner, real.get(scid), signers), SIG_ZOMBIE)
+        if m["t"] == "cu" and s["res"] == "err:zombie_sig" and m["scid"] in real:
+            owner = real[m["scid"]][m["cf"] & 1]
+            if (owner, m["dg"], m["sig"]) in ver:
+                fail("step %d: channel_update for zombie channel %d, direction %d, properly signed by "
+                     "the owner of that direction (key %d), was rejected as badly signed (zombie "
+                     "index keys %s)" % (i, m["scid"], m["cf"] & 1, owner,
+                                         zp.get(m["scid"], [None])[1:]), SIG_ZOMBIE_OWNER)
+        # ---- nodes ----
         for k in np_:
             if k not in nn:
-                fails.append("step %d: node %d disappeared" % (i, k))
+                sweeping = op in ("connect", "prune_nodes") or s.get("restart")
+                still = any(k in c[1:3] for c in g["chans"])
+                if not sweeping or still or k == own:
+                    fail("step %d: node %d disappeared (%s, has channel afterwards: %s)" %
+                         (i, k, op or m["t"], still))
+        # bookkeeping of nodes that lost their last channel without a sweep
+        for k, inf in list(orphan.items()):
+            if s.get("restart") or op == "prune_nodes":
+                inf["swept"] += 1
+            if op == "connect":
+                inf["blocks"] += 1
+                inf["closing"] += 1 if closes_known else 0
         for k, x in nn.items():
             if k not in np_:
                 changed = True
                 if not (x[1:] == [0, 0] and new_chan is not None and k in new_chan[1:3]):
-                    fails.append("step %d: node %d appeared without a channel announcement" % (i, k))
+                    fail("step %d: node %d appeared without a channel announcement" % (i, k))
             elif x != np_[k]:
                 changed = True
                 has_chan = any(k in c[1:3] for c in gp["chans"]) or k == own
+                if s.get("restart") and not has_chan and x[1:] == [0, 0] and \
+                        new_chan is not None and k in new_chan[1:3]:
+                    continue    # swept by the restart, re-created as a shell by the announcement
                 ok = (m["t"] == "na" and m["node"] == k and (k, m["dg"], m["sig"]) in ver and
-                      m["ts"] > np_[k][1] and x[1:] == [m["ts"], m["sig"]] and has_chan and
+                      m["ts"] > np_[k][1] and x[1:] == [m["ts"], m["sig"]] and
                       m["fields_ok"])
                 if not ok:
-                    fails.append("step %d: node %d changed %s -> %s by a message that is not an "
-                                 "authentic newer announcement of a node with a channel" %
-                                 (i, k, np_[k], x))
+                    fail("step %d: node %d changed %s -> %s by a message that is not an "
+                         "authentic newer announcement of that node" % (i, k, np_[k], x))
+                elif not has_chan:
+                    inf = orphan.get(k)
+                    txt = ("step %d: node_announcement applied to node %d which has NO known channel "
+                           "(%s -> %s; last channel lost at step %s by %s; since then blocks=%s "
+                           "closing-a-known-channel=%s sweeps=%s; backend %s)" %
+                           (i, k, np_[k], x, inf and inf["step"], inf and inf["how"],
+                            inf and inf["blocks"], inf and inf["closing"], inf and inf["swept"], backend))
+                    sig = na_signature(inf, backend)
+                    obs[sig] = obs.get(sig, 0) + 1
+                    fail(txt, sig)
                 else:
                     effect[m["cid"]] = effect.get(m["cid"], 0) + 1
+        for k in nn:
+            if k != own and not any(k in c[1:3] for c in g["chans"]):
+                if k not in orphan:
+                    orphan[k] = {"step": i, "how": "spend" if op == "connect" else (op or m["t"]),
+                                 "blocks": 0, "closing": 0, "swept": 0}
+            else:
+                orphan.pop(k, None)
+        for k in list(orphan):
+            if k not in nn:
+                orphan.pop(k)
+        if isop and (new_chan is not None or any(
+                k in np_ and nn[k] != np_[k] for k in nn) or
+                any(scid in cp and cn[scid][7:9] != cp[scid][7:9] for scid in cn)):
+            fail("step %d: a graph maintenance event (%s) added or rewrote graph content" % (i, op))
         if changed and s["res"].startswith("err"):
-            fails.append("step %d: graph changed although the message was rejected (%s)" %
-                         (i, s["res"]))
+            fail("step %d: graph changed although the message was rejected (%s)" %
+                 (i, s["res"]))
         if s["res"] == "pending":
             pend.setdefault(m["scid"], []).append(m)
         if s["res"] == "timeout":
-            fails.append("step %d: no answer from the gossiper" % i)
+            fail("step %d: no answer from the gossiper" % i)
         for r in s["resolved"] or []:
             if r[1] == "timeout":
-                fails.append("step %d: premature update of step %d never answered" % (i, r[0]))
+                fail("step %d: premature update of step %d never answered" % (i, r[0]))
         if m["t"] == "ca" and s["resolved"]:
             pend.pop(m["scid"], None)
         gp = g
     known = {s["m"]["cid"] for s in case["steps"]}
     for h, cnt in case["bcast"].items():
         if h not in known:
-            fails.append("a message that was never submitted was broadcast (%s)" % h)
+            fail("a message that was never submitted was broadcast (%s)" % h)
         elif cnt > effect.get(h, 0):
-            fails.append("message %s was relayed %d time(s) but changed the graph %d time(s)" %
-                         (h, cnt, effect.get(h, 0)))
+            fail("message %s was relayed %d time(s) but changed the graph %d time(s)" %
+                 (h, cnt, effect.get(h, 0)))
     return fails
 
 
@@ -276,7 +422,7 @@ def run(ctx):
     ncases_env = _os.environ.get("VERIF_CASES")
     jobs = [("bbolt", ctx.uid(), "verif", {}),
             ("sqlite", ctx.uid("sql"), "verif test_db_sqlite",
-             {} if ncases_env else {"VERIF_CASES": "600" if ctx.thorough else "45"})]
+             {} if ncases_env else {"VERIF_CASES": "800" if ctx.thorough else "60"})]
     if ctx.replay:
         # --replay: re-run exactly the recorded case (same seed, case index, backend)
         import json as _json
@@ -303,18 +449,30 @@ def run(ctx):
             rows += rws
     nfail = 0
     pred_bad = set()
+    obs = {}
+    seen_sig = {}
     for c in rows:
-        f = predicate(c)
+        f = predicate(c, obs)
         if f:
             pred_bad.add((c["backend"], c["case"]))
             nfail += 1
-            if nfail <= 3:
+            # one report per distinct signature of the case; per signature at most 3
+            # reports per run (known findings are matched on the signature)
+            for sig in dict.fromkeys(x[0] for x in f):
+                seen_sig[sig] = seen_sig.get(sig, 0) + 1
+                if seen_sig[sig] > 3:
+                    continue
+                mine = [x[1] for x in f if x[0] == sig]
                 ctx.violation("impl_violates_predicate", "C20 authenticity predicate",
                               {"seed": ctx.seed, "case": c["case"], "backend": c["backend"],
-                               "fails": f[:6],
-                               "steps": [{k: s[k] for k in ("i", "tag", "m", "orc", "res", "resolved", "G")}
-                                         for s in c["steps"]], "bcast": c["bcast"]},
-                              signature="gossip predicate: %s" % f[0])
+                               "kind": c["kind"], "template": c.get("template"),
+                               "fails": mine[:6],
+                               "other_fails_of_the_case": [x[1] for x in f if x[0] != sig][:6],
+                               "steps": [{k: s[k] for k in ("i", "restart", "tag", "m", "orc", "res",
+                                                            "resolved", "G")}
+                                         for s in c["steps"]], "bcast": c["bcast"],
+                               "replay": "./check C20 --replay <this file>"},
+                              signature=sig)
     terms = [case_term(c) for c in rows]
     ok, bad, logs = coq_mismatches(ctx.uid(), IMPORTS, terms, shard=max(4, len(terms) // NCPU + 1))
     if not ok:
@@ -336,30 +494,67 @@ def run(ctx):
         ctx.violation("proof_broken", ", ".join(pr["broken"]) or "Gossip build",
                       {"log": pr["log"][-4000:]}, signature="proof", failing_input=False)
     tags_h, verd, types, kinds = {}, {}, {}, {}
+    ops_h, tmpl_h, after_h = {}, {}, {}
     nsteps = changed = relayed = pending = restarts = 0
+    zombie_marked = zombie_resurrected = 0
     for c in rows:
         kinds[c["kind"]] = kinds.get(c["kind"], 0) + 1
         relayed += sum(c["bcast"].values())
+        if c.get("template", -1) >= 0:
+            t = c["template"]
+            name = "%s/%s/%s" % (c["backend"], REMOVALS[t % len(REMOVALS)], SWEEPS[t // len(REMOVALS)])
+            tmpl_h[name] = tmpl_h.get(name, 0) + 1
+        last_op, zprev = None, set()
         for s in c["steps"]:
             nsteps += 1
             restarts += 1 if s.get("restart") else 0
             t = s["tag"].split("_resigned")[0]
             tags_h[t] = tags_h.get(t, 0) + 1
-            verd[s["res"]] = verd.get(s["res"], 0) + 1
-            types[s["m"]["t"]] = types.get(s["m"]["t"], 0) + 1
+            mt = s["m"]["t"]
+            if mt == "op":
+                m = s["m"]
+                o = m["op"]
+                if o == "connect":
+                    o = "connect_" + ("closing" if m["spent"] else "empty") + \
+                        ("_remined" if m.get("remined") else "")
+                elif o == "delete":
+                    o = "delete" + ("_notfound" if m.get("notfound") else "") + \
+                        ("_zombie" if m["zombie"] else "") + ("_strict" if m["strict"] else "")
+                ops_h[o] = ops_h.get(o, 0) + 1
+                last_op = s["m"]["op"]
+            else:
+                verd[s["res"]] = verd.get(s["res"], 0) + 1
+                if last_op or s.get("restart"):
+                    # message kinds that arrive right after a graph maintenance event
+                    k = "%s after %s" % (mt, "restart" if s.get("restart") else last_op)
+                    after_h[k] = after_h.get(k, 0) + 1
+                last_op = None
+            types[mt] = types.get(mt, 0) + 1
             changed += 1 if "g" in s else 0
             pending += len(s["resolved"] or [])
+            zs = {z[0] for z in s["G"]["zombies"]}
+            if mt == "op":
+                zombie_marked += len(zs - zprev)
+            zombie_resurrected += len(zprev - zs)
+            zprev = zs
     ctx.cov.update({
         "evaluations": nsteps,
         "cases": len(rows),
         "distinct_nontrivial": distinct_count(
             [c for c in rows if len(c["steps"]) > 3],
             lambda c: [(s["tag"], s["res"], s["m"]["t"], s["m"].get("ts"), "g" in s) for s in c["steps"]]),
-        "rule": "one case = fresh gossiper + graph.Builder + graph DB, 8-22 remote messages "
-                "(valid, duplicate, stale/equal/+1 timestamps, field corruptions with and without "
-                "re-signing, single-bit wire corruptions, wrong-direction/stranger signers, "
-                "funding: spent/err/wrong script/missing block/bad index); non-trivial = more than "
-                "3 messages; distinct by (generator tag, verdict, type, timestamp, graph-changed) list",
+        "rule": "one case = fresh gossiper + started graph.Builder + graph DB, 8-30 events: remote "
+                "messages (valid, duplicate, stale/equal/+1 timestamps, field corruptions with and "
+                "without re-signing, single-bit wire corruptions, wrong-direction/stranger signers, "
+                "funding: spent/err/wrong script/missing block/bad index), restarts, and in every "
+                "4th case ('history') graph maintenance events on the real Builder/store (blocks "
+                "connected with/without spends of known channels, tip blocks re-orged out and "
+                "re-mined, DeleteChannelEdges with/without zombie marking and strict pruning, "
+                "PruneGraphNodes) laid out by enumerated templates (removal kind x sweep kind x "
+                "update pattern) followed by node announcements of the endpoints, updates for both "
+                "directions signed by the owner and by the other party, the announcement again, "
+                "and a random tail; non-trivial = more than 3 events; distinct by (generator tag, "
+                "verdict, type, timestamp, graph-changed) list",
         "traces_validated_against_impl": len(rows),
         "case_kinds": kinds, "message_types": types, "verdicts": verd,
         "generator_tags": dict(sorted(tags_h.items())),
@@ -367,6 +562,13 @@ def run(ctx):
         "messages_broadcast": relayed,
         "premature_updates_replayed": pending,
         "restarts_on_cold_store": restarts,
+        "graph_maintenance_events": dict(sorted(ops_h.items())),
+        "history_templates": dict(sorted(tmpl_h.items())),
+        "messages_right_after_maintenance_event": dict(sorted(after_h.items())),
+        "zombie_entries_marked_by_deletion": zombie_marked,
+        "zombie_entries_resurrected": zombie_resurrected,
+        "channelless_node_announcements_applied": dict(sorted(obs.items())),
+        "predicate_failures_by_signature": dict(sorted(seen_sig.items())),
         "predicate_failures": nfail,
         "correspondence_mismatches": len(bad),
         "graph_backends": {b: sum(1 for r in rows if r.get("backend") == b)
@@ -379,7 +581,15 @@ def run(ctx):
         "goroutine structure (validation barrier, batching) is exercised, not modelled: the harness "
         "submits one message at a time and waits for quiescence",
         "block-height-premature messages are answered nil and parked; their later re-injection "
-        "(new blocks) is not modelled",
+        "(new blocks) is not modelled: block epochs are not delivered to the gossiper, its best "
+        "height only moves at a restart (recorded per step and handed to the model)",
+        "node_announcement applied to a node without a known channel is ALWAYS reported; the "
+        "signature says in which situation (before-next-block = known finding C20-F2, after-block "
+        "sqlite = known finding C20-F3, after-block bbolt / after-sweep = violation); the Coq model "
+        "mirrors the stores' real sweeping (flag sweep_always) and the clause is stated as "
+        "C20_node_ann_channelless_window_refuted",
+        "Builder.pruneZombieChans (a timer) is replayed as its store calls "
+        "DeleteChannelEdges(strict, markZombie=true) + PruneGraphNodes",
     ]
     if ctx.thorough:
         ctx.coqchk(["LV.Gossip.Props"])
